@@ -10,6 +10,8 @@ What is mirrored here: initial-state decoding, bit flips, spin-block bookkeeping
 qubit placement of the emitted operations, and the Cooley–Tukey recursion of `ffft`.
 Import-free.
 -/
+import OFV.Model.C11
+
 namespace OFV
 namespace Model
 namespace C14
@@ -58,6 +60,20 @@ def givensOps (n : Nat) (desc : List (List (Option (Nat × Nat × Nat)))) : List
     match op with
     | none => [PrimOp.x (n - 1)]
     | some (i, j, k) => [PrimOp.ryxxy i j k, PrimOp.zpow j k]
+
+/-- the qubit pairs `(j-1, j)` the Givens rotations of iteration `k` of `givens_decomposition_square`
+may act on (C11 schedule `squareLayer`: position `(i, j)` is zeroed by a rotation of columns `j-1, j`;
+rotations of already-zero entries are skipped by the code, so a real layer is a sub-list) -/
+def slaterLayerPairs (n k : Nat) : List (Nat × Nat) :=
+  (C11.squareLayer n k).map fun ij => (ij.2 - 1, ij.2)
+
+def slaterSchedulePairs (n : Nat) : List (List (Nat × Nat)) :=
+  (List.range (C11.squareDepth n)).map (slaterLayerPairs n)
+
+/-- a circuit description (as handed to `_ops_from_givens_rotations_circuit_description` by
+`_slater_basis_change`) whose every layer is drawn from one iteration of the C11 schedule -/
+def FromSquareSchedule (n : Nat) (desc : List (List (Option (Nat × Nat × Nat)))) : Prop :=
+  ∀ layer ∈ desc, ∃ k, ∀ op ∈ layer, ∃ a b p, op = some (a, b, p) ∧ (a, b) ∈ slaterLayerPairs n k
 
 /-! ### ffft -/
 
